@@ -20,6 +20,7 @@ import (
 	kemtypes "github.com/flant/shell-operator/pkg/kube_events_manager/types"
 	"github.com/flant/shell-operator/pkg/metric"
 	"github.com/flant/shell-operator/pkg/utils/measure"
+	"github.com/flant/shell-operator/pkg/utils/verifhook"
 )
 
 type resourceInformer struct {
@@ -160,6 +161,8 @@ func (ei *resourceInformer) getCachedObjects() []kemtypes.ObjectAndFilterResult 
 	}
 	ei.cacheLock.RUnlock()
 
+	verifhook.Point("ri.snap.afterCopy", ei.Monitor.Metadata.MonitorId, ei.Namespace, ei.Name)
+
 	// Reset eventBuf if needed.
 	ei.eventBufLock.Lock()
 	if !ei.eventCbEnabled {
@@ -170,6 +173,8 @@ func (ei *resourceInformer) getCachedObjects() []kemtypes.ObjectAndFilterResult 
 }
 
 func (ei *resourceInformer) enableKubeEventCb() {
+	verifhook.Point("ri.enable.enter", ei.Monitor.Metadata.MonitorId, ei.Namespace, ei.Name)
+	defer verifhook.Point("ri.enable.exit", ei.Monitor.Metadata.MonitorId, ei.Namespace, ei.Name)
 	ei.eventBufLock.Lock()
 	defer ei.eventBufLock.Unlock()
 	if ei.eventCbEnabled {
@@ -373,6 +378,8 @@ func (ei *resourceInformer) handleWatchEvent(object interface{}, eventType kemty
 		ei.cacheLock.Unlock()
 	}
 
+	verifhook.Point("ri.ev.afterCache", ei.Monitor.Metadata.MonitorId, ei.Namespace, ei.Name, resourceId, string(eventType))
+
 	// Fire KubeEvent only if needed.
 	if ei.shouldFireEvent(eventType) {
 		log.Debug("send KubeEvent",
@@ -395,6 +402,8 @@ func (ei *resourceInformer) handleWatchEvent(object interface{}, eventType kemty
 		eventCbEnabled = ei.eventCbEnabled
 		ei.eventBufLock.Unlock()
 
+		verifhook.Point("ri.ev.afterFlagRead", ei.Monitor.Metadata.MonitorId, ei.Namespace, ei.Name, resourceId, string(eventType), eventCbEnabled)
+
 		if eventCbEnabled {
 			// Pass event info to callback.
 			ei.putEvent(kubeEvent)
@@ -408,6 +417,7 @@ func (ei *resourceInformer) handleWatchEvent(object interface{}, eventType kemty
 			ei.eventBufLock.Unlock()
 		}
 	}
+	verifhook.Point("ri.ev.done", ei.Monitor.Metadata.MonitorId, ei.Namespace, ei.Name, resourceId, string(eventType))
 }
 
 func (ei *resourceInformer) adjustFieldSelector(selector *kemtypes.FieldSelector, objName string) *kemtypes.FieldSelector {
